@@ -241,7 +241,10 @@ def emit_stmts(o, names, stmts):
                 with vsc.else_then:
                     emit_stmts(o, names, s["else"])
         elif k == "solve_order":
-            vsc.solve_order([getattr(o, names[i]) for i in s["before"]], [getattr(o, names[i]) for i in s["after"]])
+            with vsc.raw_mode():
+                bl = [getattr(o, names[i]) for i in s["before"]]
+                al = [getattr(o, names[i]) for i in s["after"]]
+            vsc.solve_order(bl if len(bl) > 1 else bl[0], al if len(al) > 1 else al[0])
         elif k == "dist":
             ws = []
             for w in s["weights"]:
